@@ -217,11 +217,40 @@ Proof.
   inversion H as [|? ? (_ & _ & Ht) Hr]; subst. now apply IH.
 Qed.
 
-Lemma keep_tail_lf0 out t : lf0 t -> (out = [] -> t = []) -> keep_tail out t = (t, []).
+Lemma split_lf0_snd_again t : split_lf0 (snd (split_lf0 t)) = ([], snd (split_lf0 t)).
 Proof.
-  intros H Ho. destruct out as [|x out]; simpl.
-  - now rewrite (Ho eq_refl).
-  - now apply split_lf0_all.
+  induction t as [|x r IH]; simpl; [reflexivity|].
+  destruct (clf x) eqn:E; simpl; [now rewrite E|].
+  destruct (split_lf0 r) as [a b]; simpl in *. exact IH.
+Qed.
+
+Lemma split_lf0_lf0_app L r : lf0 L -> split_lf0 (L ++ r) = (L ++ fst (split_lf0 r), snd (split_lf0 r)).
+Proof.
+  induction 1 as [|x L Hx HL IH]; simpl.
+  - now destruct (split_lf0 r).
+  - rewrite Hx, IH. reflexivity.
+Qed.
+
+Lemma detach_nil gs tail : detach gs tail = [] -> gs = [].
+Proof.
+  destruct gs as [|g0 rest]; [reflexivity|]. simpl.
+  destruct rest as [|g r]; simpl; [discriminate|]. destruct (strip g); discriminate.
+Qed.
+
+(* the tail written by the first pass (comments on the last line, then the rest as it was split)
+   is split in the same way by the second pass *)
+Lemma keep_tail_resplit out t tr rest out2 L :
+  keep_tail out t = (tr, rest) -> lf0 L ->
+  (out = [] -> out2 = [] /\ L = []) -> (out <> [] -> out2 <> []) ->
+  keep_tail out2 (L ++ rest) = (L, rest).
+Proof.
+  intros Ek HL H0 H1. destruct out as [|o1 out].
+  - destruct (H0 eq_refl) as [-> ->]. reflexivity.
+  - assert (Hne : out2 <> []) by (apply H1; discriminate).
+    destruct out2 as [|o2 out2]; [congruence|]. simpl in *.
+    rewrite (split_lf0_lf0_app L rest HL).
+    assert (Hr : rest = snd (split_lf0 t)) by now rewrite Ek.
+    rewrite Hr, split_lf0_snd_again. simpl. now rewrite app_nil_r.
 Qed.
 
 Theorem norm_idem c ts : norm c (norm c ts) = norm c ts.
@@ -238,18 +267,19 @@ Proof.
   { pose proof (run_comments c _ _ _ _ _ Er) as Hc. simpl in Hc. rewrite Hc, item_comments_restyle.
     apply Forall_forall. intros x Hx. apply in_map_iff in Hx as [y [<- _]]. apply styled_restyle. }
   apply Forall_app in Hst as [Hst1 Hst2].
-  assert (Hst3 : Forall (styled c) tr).
-  { assert (H : Forall (styled c) (tr ++ rest)).
-    { rewrite Hsp. apply Forall_app. split; auto.
-      apply Forall_forall. intros x Hx. apply in_map_iff in Hx as [y [<- _]]. apply styled_restyle. }
-    now apply Forall_app in H as [H _]. }
+  assert (Hst4 : Forall (styled c) (tr ++ rest)).
+  { rewrite Hsp. apply Forall_app. split; auto.
+    apply Forall_forall. intros x Hx. apply in_map_iff in Hx as [y [<- _]]. apply styled_restyle. }
+  assert (Hst3 : Forall (styled c) tr) by now apply Forall_app in Hst4 as [H _].
+  assert (Hst5 : Forall (styled c) rest) by now apply Forall_app in Hst4 as [_ H].
+  assert (Hk2 : keep_tail out (tr ++ rest) = (tr, rest)) by (rewrite Hsp; exact Ek).
   pose proof (run_replay c _ st0 st0 [] out tl1 inv_st0 rel_st0 ltac:(intros F; destruct F) ltac:(intros F; destruct F) Er) as Hrun.
   destruct (chunks 0 [] out) as [gs r0] eqn:Ec.
   destruct r0 as [|x r0].
   2:{ (* unfinished declaration: nothing is sorted, as in the unsorted case *)
     subst n. unfold norm. rewrite to_items_of_items. unfold norm_items.
     rewrite (restyle_items_styled c out Hst1), Hrun. simpl app.
-    rewrite (map_restyle_styled c tr Hst3), (keep_tail_idem _ _ _ _ Ek), Ec. reflexivity. }
+    rewrite (map_restyle_styled c _ Hst4), Hk2, Ec. reflexivity. }
   rewrite Hsd in Hn.
   (* the declarations *)
   pose proof (run_quiet c _ st0 st0 [] out tl1 inv_st0 rel_st0 ltac:(intros F; destruct F) ltac:(intros F; destruct F) Er) as Q.
@@ -294,12 +324,22 @@ Proof.
     rewrite app_nil_r in H. simpl in H. rewrite H.
     - now rewrite app_nil_r.
     - apply quiet_concat. exact Hjg. }
-  rewrite Hrun2. simpl app. rewrite (map_restyle_styled c _ Hjs2).
-  rewrite keep_tail_lf0.
+  rewrite Hrun2. simpl app.
+  rewrite (map_restyle_styled c (last_trail [] S ++ rest)) by (apply Forall_app; split; auto).
+  rewrite (keep_tail_resplit out _ tr rest _ (last_trail [] S) Ek).
   2:{ apply (last_trail_lf0 c); auto. constructor. }
-  2:{ intros Ho. destruct S as [|g r]; [reflexivity|]. exfalso.
-      inversion HS as [|? ? Hg _]; subst. pose proof (good_items_nonempty c g Hg) as Hne'.
-      simpl in Ho. unfold jitems in Ho. destruct (g_items g) as [|[cs t] more]; [congruence|discriminate]. }
+  2:{ intros Ho. assert (Hgs : gs = []).
+      { destruct gs as [|g0 gs']; [reflexivity|]. exfalso. inversion Hne as [|? ? Hg0 _]; subst.
+        simpl in Ho. destruct g0; [congruence|discriminate]. }
+      unfold S, G. rewrite Hgs. split; reflexivity. }
+  2:{ intros Ho Hj. apply Ho.
+      assert (HS0 : S = []).
+      { destruct S as [|g r]; [reflexivity|]. exfalso.
+        inversion HS as [|? ? Hg _]; subst. pose proof (good_items_nonempty c g Hg) as Hne'.
+        simpl in Hj. unfold jitems in Hj. destruct (g_items g) as [|[cs t] more]; [congruence|discriminate]. }
+      assert (HG0 : G = []).
+      { apply Permutation_nil. rewrite <- HS0. unfold S. apply sort_groups_perm. }
+      unfold G in HG0. apply detach_nil in HG0. rewrite <- Hcc, HG0. reflexivity. }
   rewrite (chunks_concat_good c _ Hjg). rewrite Hsd.
   rewrite (detach_jlist c S HS).
   rewrite (sort_groups_map markg markg_kind markg_name).
